@@ -184,6 +184,7 @@ type Sim struct {
 
 	stmtYields bool
 	chans      map[uintptr]*chanState
+	mapWin     map[uintptr][]mapAcc // announced map accesses (mapguard.go)
 	stopping   atomic.Bool
 	finished   chan struct{}
 	finOnce    atomic.Bool
